@@ -37,13 +37,13 @@ def _run_digest(prop, runs, hashseed, workers, repo=None, seed=0):
     return json.loads(p.stdout.strip().splitlines()[-1])
 
 
-def determinism(props, runs):
+def determinism(props, runs, seeds=(0, 20261003)):
     rc = 0
-    for prop in props:
+    for prop, seed in [(p, s) for p in props for s in seeds]:
         configs = [(0, 16), (0, 1 if runs <= 300 else 3), (12345, 16), ("random", 7)]
         results = []
         for hs, w in configs:
-            results.append(_run_digest(prop, runs, hs, w))
+            results.append(_run_digest(prop, runs, hs, w, seed=seed))
         base = results[0]
         ok = True
         for (hs, w), r in zip(configs[1:], results[1:]):
@@ -54,7 +54,7 @@ def determinism(props, runs):
         if base["nharness"]:
             ok = False
             print("DETERMINISM-FAIL %s: harness errors %s" % (prop, base["harness"]))
-        print("determinism %s: %s (%d runs x %d configurations, digest %s)" % (prop, "ok" if ok else "FAILED", runs, len(configs), base["digest"][:16]))
+        print("determinism %s VERIF_SEED=%d: %s (%d runs x %d configurations: PYTHONHASHSEED 0/0/12345/random, workers 16/%d/16/7, fresh interpreters; digest %s)" % (prop, seed, "ok" if ok else "FAILED", runs, len(configs), configs[1][1], base["digest"][:16]))
         if not ok:
             rc = 2
     return rc
